@@ -16,13 +16,23 @@ def main(argv=None):
     ck.finish(
         rule='seeded random programs (6-36 ops + final reads by both connections) over 4-7 objects on mapping, file '
              'and demo storage: modify, link/unlink, conn.add, read, transaction.savepoint(), rollback of the i-th '
-             'savepoint (valid and invalidated ones), commit, abort, reads of a second connection; corpus first '
-             '(the reproduced TmpStore.reset defect); non-trivial = at least 2 successful rollbacks, one of them '
-             'to a savepoint older than a later savepoint; distinct by hash of the case',
+             'savepoint (valid and invalidated ones), commit, abort, occasionally a commit of a second connection '
+             '(conflict while the savepoint store is replayed) or a commit with an injected failure, reads of a '
+             'second connection; every fifth case is a structured scenario with random objects/values/filler '
+             '(replay conflict, object first saved by a later savepoint, repeated rollbacks around creation, '
+             'savepoint before joining, abort after savepoints, explicit add, an object that reloads itself when '
+             'invalidated); corpus first (the reproduced TmpStore.reset defect); non-trivial = at least 2 successful '
+             'rollbacks, one of them to a savepoint older than a later savepoint; distinct by hash of the case',
         assumptions=['C12 promises nothing about the in-memory state of an object that was un-added; once such an '
                      'object whose state was lost (finding C11:stored-new-object-ghostified-on-abort) is added '
                      'again the rest of the program is outside the claim (counted as tainted-by-C11-finding)',
-                     'blob writes inside savepoints are exercised by the C13 check'])
+                     'blob writes inside savepoints are exercised by the C13 check',
+                     'objects that reload themselves on invalidation (persistent classes, self-activating objects) '
+                     'are not in the Lean model: the cases containing one are judged by the oracle alone '
+                     '(counted as oracle-only:self-activating-object)',
+                     'the Lean theorems of Props/C12.lean are about programs of one connection without injected '
+                     'failures; programs with a second connection or failing commits are covered by the differential '
+                     'run (the model handles them: C11) and the oracle'])
 
 
 if __name__ == '__main__':
